@@ -231,9 +231,36 @@ R_ORDER = {"wrong_order"}
 R_GROUP = {"group_bags_differ", "group_sequences_differ", "group_union_differs"}
 
 
-def search_mc(ctx, name, scope, dfs, fuel=400):
+def search_mc(ctx, name, scope, dfs, fuel=400, workers=12):
     return mc(ctx, name, "MC_Search", {"Dfs": "TRUE" if dfs else "FALSE", "Fuel": str(fuel), "Tag": '"%s"' % name},
-              SEARCH_INVS, {"Scope": scope})
+              SEARCH_INVS, {"Scope": scope}, workers=workers)
+
+
+def search_mc_many(ctx, specs):
+    """Several MC_Search configurations side by side (they are independent TLC runs);
+    specs = [(name, scope, dfs)], results in the same order."""
+    from concurrent.futures import ThreadPoolExecutor
+    w = max(3, 14 // len(specs))
+    with ThreadPoolExecutor(max_workers=len(specs)) as ex:
+        futs = [ex.submit(search_mc, ctx, n, sc, d, 400, w) for (n, sc, d) in specs]
+        return [f.result() for f in futs]
+
+
+def mc_query_cases(ctx, res, prefix, ordered=False):
+    """CASE lines of a query scope of MC_Search (goal = <<"query", qvars, body>>) -> query cases whose engine
+    steps are validated against Search.tla (the whole pipeline: body, state::reified, labelling)."""
+    out = []
+    for n, c in enumerate(res["cases"]):
+        g = c["goal"]
+        case = {"id": "%s-%s-%d" % (ctx["prop"], prefix, n), "kind": "program", "mode": "query", "qvars": g[1],
+                "body": g[2], "budget": 20 * c["ticks"] + 1000, "after": 1}
+        if c["phase"] == "exhausted":
+            case["ticks"] = c["ticks"]
+            case["engine"] = True
+        if ordered:
+            case["ordered"] = True
+        out.append(case)
+    return out
 
 
 def solver_cases(ctx, res, prefix, ordered=False):
@@ -260,10 +287,13 @@ def query(ctx, cid, nq, body, **kw):
 
 
 def plan_c05(ctx):
-    r = search_mc(ctx, "dfs", T(ctx, "DfsSmall", "DfsFull"), True)
-    add(ctx, solver_cases(ctx, r, "d", ordered=True))
-    r = search_mc(ctx, "mixed", "Mixed", False)
-    add(ctx, solver_cases(ctx, r, "m"))
+    rd, rm, rq = search_mc_many(ctx, [("dfs", T(ctx, "DfsSmall", "DfsFull"), True), ("mixed", "Mixed", False),
+                                      ("qdfs", T(ctx, "QDfsSmall", "QDfs"), True)])
+    add(ctx, solver_cases(ctx, rd, "d", ordered=True))
+    add(ctx, solver_cases(ctx, rm, "m"))
+    # whole queries: the order must survive reification and labelling (blockwise: labelling is an
+    # interleaving search of its own)
+    add(ctx, mc_query_cases(ctx, rq, "q", ordered=True))
     rng = ctx["rng"]
     for i in range(T(ctx, 400, 8000)):
         nq = rng.randint(1, 2)
@@ -295,8 +325,9 @@ def plan_c05(ctx):
 
 
 def plan_c06(ctx):
-    r = search_mc(ctx, "bfs", T(ctx, "BfsSmall", "B2"), False)
+    r, rq = search_mc_many(ctx, [("bfs", T(ctx, "BfsSmall", "B2"), False), ("qbfs", T(ctx, "QBfsSmall", "QBfs"), False)])
     add(ctx, solver_cases(ctx, r, "b"))
+    add(ctx, mc_query_cases(ctx, rq, "q"))
     rng = ctx["rng"]
     n = T(ctx, 300, 6000)
     for i in range(n):
